@@ -293,6 +293,12 @@ class Statement(object):
             except ValueError as error:
                 raise TranslationError(str(error), self)
 
+        if self.operand.value.is_multi_byte() or self.operand.value.is_multi_word():
+            try:
+                self.operand.value.resolve_addresses(statements)
+            except (ValueError, ValueTypeError) as error:
+                raise TranslationError(str(error), self)
+
         if self.operand.value.is_address():
             self.code_pkg.additional = statements[self.operand.value.int].code_pkg.address
 
